@@ -45,6 +45,7 @@ type Plan struct {
 	// one decomposition-sweep task per face, then one pair-sweep task per
 	// (alphabet, mark) item
 	DecompCap  int        `json:"decomp_cap"`
+	LookupCap  int        `json:"lookup_cap"`
 	PairItems  int        `json:"pair_items"`
 	SweepFaces [][]string `json:"sweep_faces"`
 }
@@ -384,6 +385,12 @@ func Main() {
 					w := Judge(cur, &c, pl.Skew)
 					record(run, cur, &c, &w, pairs, pl.Skew)
 				}
+				// (4) lookup sweep of this face
+				for _, c := range LookupSweep(cur, i-nRandom, pl.LookupCap) {
+					c := c
+					w := Judge(cur, &c, pl.Skew)
+					record(run, cur, &c, &w, pairs, pl.Skew)
+				}
 				return
 			}
 			seen := map[uint32]bool{}
@@ -427,7 +434,7 @@ func Main() {
 	sk := ComputeSkew()
 	faces, rejected := EligibleFaces()
 	pl := &Plan{Faces: faces, Skew: sk, Batches: run.Pick(8, 80), PerTask: run.Pick(50, 100),
-		DecompCap: run.Pick(120, 0), PairItems: PairSweepItems(), SweepFaces: PairSweepFaces(faces)}
+		DecompCap: run.Pick(120, 0), LookupCap: run.Pick(150, 1500), PairItems: PairSweepItems(), SweepFaces: PairSweepFaces(faces)}
 	if err := SavePlan(planPath, pl); err != nil {
 		fmt.Fprintln(os.Stderr, "plan:", err)
 		os.Exit(3)
